@@ -103,9 +103,10 @@ CHAINS = {
     # adds, a changed record inside an RRset, an SOA-only step with a serial gap
     "A": [(soa(1), [NS1, A1]), (soa(2), [NS1, A1, TX]), (soa(3), [NS1, A2, TX]),
           (soa(5), [NS1, A2, TX])],
-    # serial wrap 2^32-1 -> 1, TTL change, SOA ttl/minimum change, delete
-    "B": [(soa(MOD - 1, 60, 3600), [NS1, NS2, A1]), (soa(1, 61, 1800), [NS1, NS2, A1L]),
-          (soa(2, 61, 1800), [NS1, A1L, A2L])],
+    # serial wrap 2^32-1 -> 0 -> 1 (serial 0 is a legal base serial and a falsy value), TTL change,
+    # SOA ttl/minimum change, delete
+    "B": [(soa(MOD - 1, 60, 3600), [NS1, NS2, A1]), (soa(0, 61, 1800), [NS1, NS2, A1L]),
+          (soa(1, 61, 1800), [NS1, A1L, A2L])],
     # partial RRset deletion, several adds incl. wildcard owner / compressible rdata
     "C": [(soa(10), [NS1, A1, A2]), (soa(11), [NS1, A2]), (soa(12), [NS1, NS2, A2, TX, MX])],
     # signed zone: all signatures covering one type removed, then re-signed
@@ -164,6 +165,11 @@ def scenarios(tier):
         sc(cname + "/udp-ixfr-axfrstyle", v1, "IXFR", True, axfr_stream(v3))
         sc(cname + "/udp-ixfr-uptodate", v1, "IXFR", True, [v1[0]])
         sc(cname + "/udp-ixfr-usetcp", v1, "IXFR", True, [v3[0]])
+        if cname == "B":
+            # transfers whose base serial is 0 (the second version of the wrap chain)
+            sc(cname + "/ixfr-from-serial-0", v2, "IXFR", False, ixfr_stream([v2, v3]))
+            sc(cname + "/udp-ixfr-from-serial-0", v2, "IXFR", True, ixfr_stream([v2, v3]))
+            sc(cname + "/ixfr-uptodate-serial-0", v2, "IXFR", False, [v2[0]])
     return out
 
 
